@@ -137,7 +137,7 @@ func c19Sig(o *rt.Outcome) string {
 
 func c19(ctx *core.Ctx) {
 	quietLogs()
-	ctx.Rule("generated configurations (route table on the router's full template fragment, recording filters at all three levels labelled with their route/service, a filter writing a per-request attribute and a per-request key into PathParameters(), a HandleWithFilter handler, handlers that read the raw request body, an echo route reading gzip-encoded entities that arrive in small slices, 0-5 extra container filters, CORS filter with configured or computed methods, OPTIONS filter, content encoding with the sync.Pool or a bounded(1,1) compressor provider, handlers writing raw bytes or negotiated entities, streaming handlers that Flush their first chunk, handlers switching PrettyPrint off for their own entity; both routers; Dispatch or ServeHTTP). For each request of a multiset of 40 (hits, near misses, adversarial, a parameter-less resource in two representations each way asked for with matching and non-matching media headers, malformed Accept, CORS actual and preflight requests for different URLs, Accept-Encoding) the reference is the answer of a FRESH container to that request alone through the same entry point; for every 5th (thorough: 25th) configuration the fresh-container answers are also computed by two further PROCESSES of this binary that serve the multiset in reverse and in shuffled order, and must be the same (state left behind in package-level variables would otherwise pollute reference and history alike). Then (a) a 200-request sequential history in random order with repetitions, every 5th step preceded by the same request from a client whose connection fails on every body write, (b) batches released together from 16 (now and then 70) goroutines, (c) the sequential history again with trace logging on: status, all headers, decoded body, path parameters, selected route and attributes seen by every filter/handler must equal the reference. Race detector on. Non-trivial = a compared response of a request that ran at least one filter or handler; distinct by (configuration shape, phase, outcome class).")
+	ctx.Rule("generated configurations (route table on the router's full template fragment, recording filters at all three levels labelled with their route/service, a filter writing a per-request attribute and a per-request key into PathParameters(), a HandleWithFilter handler, handlers that read the raw request body, an echo route reading gzip-encoded entities that arrive in small slices, 0-5 extra container filters, CORS filter with configured or computed methods, OPTIONS filter, content encoding with the sync.Pool or a bounded(1,1) compressor provider, handlers writing raw bytes or negotiated entities, streaming handlers that Flush their first chunk, handlers switching PrettyPrint off for their own entity; both routers; Dispatch or ServeHTTP). For each request of a multiset of 40 (hits, near misses, adversarial, a parameter-less resource in two representations each way asked for with matching and non-matching media headers, malformed Accept, CORS actual and preflight requests for different URLs, Accept-Encoding) the reference is the answer of a FRESH container to that request alone through the same entry point; for every 5th (thorough: 25th) configuration the fresh-container answers are also computed by two further PROCESSES of this binary that serve the multiset in reverse and in shuffled order, and must be the same (state left behind in package-level variables would otherwise pollute reference and history alike). Before anything else a cold-start burst: 16 clients send the same request at once as the first requests through a route whose expressions the process has never used. Then (a) a 200-request sequential history in random order with repetitions, every 5th step preceded by the same request from a client whose connection fails on every body write, (b) batches released together from 16 (now and then 70) goroutines, (c) the sequential history again with trace logging on: status, all headers, decoded body, path parameters, selected route and attributes seen by every filter/handler must equal the reference. Race detector on. Non-trivial = a compared response of a request that ran at least one filter or handler; distinct by (configuration shape, phase, outcome class).")
 	ctx.Assume("the reference is per (request, entry point): ServeHTTP answers unregistered prefixes from net/http's mux")
 	defer restful.EnableTracing(false)
 	defer restful.SetCompressorProvider(restful.NewSyncPoolCompessors())
@@ -170,6 +170,9 @@ func c19(ctx *core.Ctx) {
 			restful.SetCompressorProvider(restful.NewBoundedCachedCompressors(1, 1))
 		} else {
 			restful.SetCompressorProvider(restful.NewSyncPoolCompessors())
+		}
+		if childCi < 0 {
+			coldBurst(ctx, ci, cf.Router)
 		}
 		o := fullGenOpts(cf.Router)
 		o.StarMedia = false
@@ -486,6 +489,58 @@ func firstInAnotherProcess(ctx *core.Ctx, ci int, cf *c19Config, t *rt.Table, re
 					map[string]interface{}{"config": cf, "table": t, "request": reqs[i], "order_in_the_other_process": order, "this_process": refs[i], "other_process": sigs[i]})
 				return
 			}
+		}
+	}
+}
+
+// coldBurst: the very first requests a process sends through a route whose expression it has never used before arrive
+// together (a service that has just been started behind a load balancer). All of them carry the same request; all get the
+// answer that this request gets later on.
+func coldBurst(ctx *core.Ctx, ci int, router string) {
+	c := restful.NewContainer()
+	if router == "jsr311" {
+		c.Router(restful.RouterJSR311{})
+	}
+	// expressions nobody in this process has used yet (the configuration index and the seed make them unique)
+	n := 30 + ci
+	root := fmt.Sprintf("/cold/{tenant:[a-z]{1,%d}}", n)
+	ws := new(restful.WebService).Path(root)
+	ws.Route(ws.GET(fmt.Sprintf("/{id:[0-9]{1,%d}}/{rest:[a-z0-9]{1,%d}}", n+1, n+2)).To(func(req *restful.Request, resp *restful.Response) {
+		resp.Write([]byte(req.PathParameter("tenant") + "|" + req.PathParameter("id") + "|" + req.PathParameter("rest")))
+	}))
+	c.Add(ws)
+	const workers = 16
+	answers := make([]string, workers)
+	var wg sync.WaitGroup
+	var ready, gate int32
+	for g := 0; g < workers; g++ {
+		wg.Add(1)
+		go func(g int) {
+			defer wg.Done()
+			atomic.AddInt32(&ready, 1)
+			for atomic.LoadInt32(&gate) == 0 {
+				runtime.Gosched()
+			}
+			req := rt.Req{Method: "GET", Path: "/cold/acme/4711/x9"}
+			out := rt.Run(c, rt.Dispatch, &req)
+			answers[g] = fmt.Sprintf("%d %q", out.Status, out.Rec.Body.String())
+		}(g)
+	}
+	for atomic.LoadInt32(&ready) < workers {
+		runtime.Gosched()
+	}
+	atomic.StoreInt32(&gate, 1)
+	wg.Wait()
+	req := rt.Req{Method: "GET", Path: "/cold/acme/4711/x9"}
+	out := rt.Run(c, rt.Dispatch, &req)
+	later := fmt.Sprintf("%d %q", out.Status, out.Rec.Body.String())
+	ctx.Eval(workers + 1)
+	ctx.Count("cold_start_bursts", 1)
+	for g, a := range answers {
+		if a != later || a != `200 "acme|4711|x9"` {
+			ctx.Violation(ci, "c19:differs:cold-start-burst:"+router, fmt.Sprintf("GET /cold/acme/4711/x9 on %s, sent by 16 clients at once as the first requests through that route: client %d got %s, the same request afterwards gets %s", root, g, a, later),
+				map[string]interface{}{"router": router, "answers_of_the_burst": answers, "answer_afterwards": later})
+			return
 		}
 	}
 }
